@@ -548,6 +548,17 @@ def setError (s : Api) (e : Option ErrorKind) : Api × Ret :=
   if s.error = none ∧ e ≠ none then (s, .status none)
   else ({ s with error := e }, .status none)
 
+def output (s : Api) (outNull : Bool) (olen : Nat) (fn : FnObs) : Api × Ret :=
+  match s.error with
+  | some _ => (s, .count .zero)
+  | none =>
+    if !s.built then (s, .misuse)
+    else if outNull && decide (0 < olen) then ({ s with error := some .nullOutput }, .count .zero)
+    else if outNull && s.otype &&& Gen.splitBit != 0 then (s, .misuse)   -- NULL array of split buffers is indexed
+    else match fn with
+      | .failed => ({ s with error := some .inputFailure }, .count .any)
+      | .quiet => (s, .count .any)
+
 /-- `soxr_process`: `odone` and the returned `p->error`.  `fn`: what a registered input function did when the embedded
     `soxr_output` called it. -/
 def process (s : Api) (inNull outNull : Bool) (olen : Nat) (fn : FnObs) : Api × Ret :=
